@@ -71,6 +71,10 @@ def extract_json(body, schema):
     """Extract JSON from a body and validate with the provided schema."""
     try:
         data = jsonutils.loads(body)
+        # An escape such as "\ud800" decodes to a lone surrogate, which is
+        # not text and cannot be stored: refuse it here (UnicodeEncodeError
+        # is a ValueError) instead of failing in the database layer.
+        jsonutils.dumps(data, ensure_ascii=False).encode('utf-8')
     except (ValueError, RecursionError) as exc:
         raise webob.exc.HTTPBadRequest(
             'Malformed JSON: %(error)s' % {'error': exc},
